@@ -179,7 +179,9 @@ class Gen:
         if k < 0.90:
             return restore() if self.has_data else let(var("M%"), I(1))
         if k < 0.93:
-            return r.choice([tron(), troff()])
+            # (no tracing in sessions that interrupt and continue: which line numbers are printed again
+            # when a traced program is resumed in the middle of a line is not specified)
+            return r.choice([tron(), troff()]) if self.layout else let(var("M%"), I(2))
         if k < 0.96:
             return ongoto(self.int_expr())      # empty target list never branches
         return self.print_stmt(loopvars)
